@@ -386,7 +386,13 @@ class HistBase(Family):
     def signature(self, case, po, res):
         ops = case[1]
         kinds = sorted(set(op[0] for op in ops))
-        return {"ops": ",".join(kinds)}
+        sig = {"ops": ",".join(kinds)}
+        try:
+            if any(op[0] in ("addls", "remls") and ob[0] != "ok" for op, ob in zip(ops, po)):
+                sig["construct"] = "list-op-raising"
+        except Exception:
+            pass
+        return sig
 
     def shrink(self, case):
         thr, ops = case
@@ -554,6 +560,15 @@ class Structured(HistBase):
             yield [1, base + [["addl", d], ["addl", d], ["remc", 0, 1]]]
             yield [1, base + [["addl", d], ["addl", d], ["remc", 1, 2]]]
             yield [1, base + [["addls", a, b, c, d], ["remls", a[1][0], c[1]], ["rem", 1]]]
+            # list operations with an item that raises (stored LinkCollection again: AttributeError;
+            # absent link: ValueError): everything registered / removed before it must be in effect
+            e = oneway(ids, [(1, 1)], (FREE, 1), [3], 0)
+            g = oneway(ids, [(3, 1)], (0, 2), [2], 1)
+            yield [1, base + [["addl", c], ["addls", e, c]]]
+            yield [1, base + [["addl", c], ["addls", e, c, g]]]
+            yield [1, base + [["addl", c], ["addl", e], ["remls", e[1][0], 777]]]
+            yield [1, base + [["addl", c], ["addl", e], ["remls", c[1], 777, e[1][0]]]]
+            yield [1, base + [["addl", c], ["db"], ["addls", e, c], ["de"]]]
 
     def mk(self, ids, kind, f, t, k):
         if kind == "ow":
@@ -651,8 +666,12 @@ class Histories(HistBase):
                     E2 = new_entry()
                     if E2 is not None:
                         entries.append(E2)
-                        ops.append(["addls", E, E2])
-                        stored += [entry_id(E), entry_id(E2)]
+                        items = [E, E2]
+                        colls = [x for x in entries if x[0] == "c"]
+                        if colls and rng.random() < 0.3:     # possibly a stored collection: AttributeError
+                            items.insert(rng.randint(0, 2), rng.choice(colls))
+                        ops.append(["addls"] + items)
+                        stored += [entry_id(x) for x in items]
                         continue
                 ops.append(["addl", E])
                 stored.append(entry_id(E))
@@ -661,6 +680,12 @@ class Histories(HistBase):
                     continue
                 if rng.random() < 0.1:
                     ops.append(["reml", rng.choice(stored + [777])])   # possibly absent: ValueError
+                elif rng.random() < 0.15:
+                    k = rng.randint(1, min(3, len(stored)))
+                    items = rng.sample(stored, k)
+                    if rng.random() < 0.3:
+                        items.insert(rng.randint(0, k), 777)
+                    ops.append(["remls"] + items)
                 else:
                     i = rng.choice(stored)
                     stored.remove(i)
@@ -704,7 +729,10 @@ class Histories(HistBase):
 PROP = Property(
     id="C03",
     title="Linked attributes are reachable exactly through links and carry composed values",
-    theorems=[],
+    theorems=["C03.discover_terminates", "C03.discover_reachable", "C03.discover_depth_min", "C03.discover_value",
+              "C03.spec_local_implies_composed", "C03.specDepth_reachable", "C03.manager_inv", "C03.manager_reads",
+              "C03.selection_via_links", "C03.manager_no_dangling", "C03.removal_forgets",
+              "C03.list_op_raising_midway_synced"],
     families=[Structured(), Shapes(), Histories()],
     trusted_base=["CPython set iteration order is deterministic for two sets built the same way in one process "
                   "(the observed order of `_links | _inverse_links` is fed to the model's literal loop; the Spec does not depend on it)",
